@@ -943,6 +943,22 @@ func syncFiltered(c *Ctx) error {
 		n = 5000
 	}
 	c.Stats.Rule = "one case = real Send over a stack of 1-2 NewFilterFS layers into real Receive, plus Open probes for every regular file of the unfiltered tree; non-trivial = a hard-link group straddles the filter (some member reported, some hidden); distinct by (tree, filter stack)"
+	// the recorded finding, every run: include [a/b, !a] - the walk (incremental matcher) reports a/b, Open (plain matcher) refuses it
+	{
+		mk := func(p string) model.Entry { e := newFile(c.Rand, genOpts{}); e.Path = p; return e }
+		t := model.Tree{{Path: "a", Type: "dir", Perm: 0755, Mtime: uniqueMtime()}, mk("a/b"), mk("c")}
+		for _, st := range [][3][]string{{{"a/b", "!a"}, nil, nil}, {nil, {"a/a", "!a"}, nil}} {
+			in := filteredInput{Src: t, CapS: 4, CapR: 4, Origin: "filtered/knownMatcherShape", Stack: [][3][]string{st}}
+			evs, _, err := runFiltered(c, c.NextCase(), in)
+			if err != nil {
+				return err
+			}
+			for _, e := range evs {
+				c.Out.Emit(e)
+			}
+			c.Stats.Case(vt.Opaque(in), true)
+		}
+	}
 	for i := 0; i < n; i++ {
 		t := filterTree(c)
 		// hard-link groups spread over directories
